@@ -268,7 +268,31 @@ def _mtsp_no_second_agent(orig):
     return mutant
 
 
+def _ffsp_wait_only_for_upstream(orig):
+    """FFSP offers the wait action only while a job still sits in an earlier stage: a machine can no longer idle
+    for a job that is being processed on its way to this stage."""
+
+    def mutant(self, td):
+        td = orig(self, td)
+        loc = td["job_location"][:, : self.num_job]
+        done = td["done"].reshape(td.batch_size[0], -1)[:, 0]
+        upstream = (loc < td["stage_idx"][:, None]).any(-1)
+        m = td["action_mask"].clone()
+        m[:, -1] = m[:, -1] * (upstream | done).to(m.dtype)
+        td["action_mask"] = m
+        return td
+
+    return mutant
+
+
+def _ffsp_env():
+    from rl4co.envs.scheduling.ffsp.env import FFSPEnv
+
+    return FFSPEnv
+
+
 C05_CANARIES = {
+    "ffsp_wait_only_for_upstream": _swap(_ffsp_env(), "_update_step_state", _ffsp_wait_only_for_upstream),
     "cvrp_ge": _swap(E["CVRPEnv"], "get_action_mask", _cvrp_ge, static=True),
     "pctsp_le": _swap(E["PCTSPEnv"], "get_action_mask", _pctsp_le, static=True),
     "sdvrp_full_early": _swap(E["SDVRPEnv"], "get_action_mask", _sdvrp_full_early, static=True),
